@@ -1161,7 +1161,11 @@ func (s *sim) deliverMsg(m pb.Message) {
 		}
 		beforeRTR, beforeMsgs = len(r.raft().readyToRead), len(r.raft().msgs)
 	}
+	rtr0, msgs0 := len(r.raft().readyToRead), len(r.raft().msgs)
 	s.input(r, "handle-"+m.Type.String(), func() error { return r.peer.Handle(m) })
+	if m.Type == pb.ReadIndex {
+		s.checkImmediateRelease(r, wasLeader, rtr0, msgs0, fmt.Sprintf("ReadIndex request forwarded by %d", m.From))
+	}
 	if wasLeader && m.Type == pb.HeartbeatResp && r.running() && r.raft().state == leader {
 		// reads released while handling this confirmation: for itself (readyToRead)
 		// and for remote requesters (ReadIndexResp)
@@ -1462,7 +1466,37 @@ func (s *sim) readIndex(r *simReplica, key string) {
 	s.ops = append(s.ops, op)
 	r.pendingReads[ctx] = op
 	s.tr("readindex on %d ctx %d G %d", r.id, ctx.Low, op.gIssue)
+	beforeRTR, beforeMsgs := len(r.raft().readyToRead), len(r.raft().msgs)
+	wasLeader := r.raft().state == leader
 	s.input(r, "readindex", func() error { return r.peer.ReadIndex(ctx) })
+	s.checkImmediateRelease(r, wasLeader, beforeRTR, beforeMsgs, "local ReadIndex request")
+}
+
+// checkImmediateRelease: C06/C18. A read released while the leader handles the
+// request itself - no heartbeat round at all - is legitimate only when the leader
+// is the only voting member (full members and witnesses) of its applied membership.
+func (s *sim) checkImmediateRelease(l *simReplica, wasLeader bool, beforeRTR, beforeMsgs int, how string) {
+	if !wasLeader || !l.running() || l.raft().state != leader {
+		return
+	}
+	voting := l.mem.voting()
+	if len(voting) <= 1 {
+		return
+	}
+	released := uint64(0)
+	if rtr := l.raft().readyToRead; len(rtr) > beforeRTR {
+		released = rtr[len(rtr)-1].SystemCtx.Low
+	}
+	msgs := l.raft().msgs
+	for i := beforeMsgs; i < len(msgs) && released == 0; i++ {
+		if msgs[i].Type == pb.ReadIndexResp {
+			released = msgs[i].Hint
+		}
+	}
+	if released != 0 {
+		s.fail("read-confirmed-without-voting-quorum", "leader %d (term %d) released read ctx %d while handling the %s, without any heartbeat confirmation, although its applied membership has %d voting members (%s)",
+			l.id, l.raft().term, released, how, len(voting), l.mem)
+	}
 }
 
 func (s *sim) configChange(r *simReplica, cc pb.ConfigChange) {
